@@ -86,11 +86,27 @@ def mutate_some(valid, percent=35):
         out['mutated'] = False
         return out
 
-    return st.builds(pick, valid, st.integers(0, 99), edits)
+    return st.builds(pick, valid, st.sampled_from(list(range(0, 100, 5))), edits)
 
 
 def ows():
     return st.sampled_from(['', '', '', ' ', '  ', '\t', ' \t'])
+
+
+def weighted(*pairs):
+    """one_of with integer weights ((weight, strategy), ...); one_of de-duplicates repeated
+    strategy objects, so repetition cannot be used for weighting."""
+    total = sum(w for w, _ in pairs)
+
+    def choose(roll):
+        acc = 0
+        for w, strat in pairs:
+            acc += w
+            if roll < acc:
+                return strat
+        raise AssertionError(roll)
+
+    return st.integers(0, total - 1).flatmap(choose)
 
 
 # ------------------------------------------------------------------ Content-Length
@@ -103,17 +119,21 @@ def content_length_values():
 
     num = st.one_of(st.integers(0, 20), st.integers(0, 1 << 32), st.integers(1 << 62, 1 << 100),
                     st.sampled_from([0, 1, (1 << 31) - 1, 1 << 31, (1 << 63) - 1, 1 << 63, 1 << 64]))
-    return st.one_of(
-        st.builds(digits, num, st.sampled_from([0, 0, 0, 1, 3])),
-        st.just({'text': '', 'expect': None, 'kind': 'empty', 'labels': ['cl:empty']}),
+    invalid = st.sampled_from(['-1', '-0', '-5', '+5', ' 5', '5 ', '1_0', '0x10', '1e3', '1.0', '5, 5', '5,5', '\xb2', '\xa05',
+                               '--1', '1-', 'abc', '0' * 5000 + '1', '9' * 5000, '1 0', '\t7']).map(
+        lambda t: {'text': t, 'expect': None, 'kind': 'invalid', 'labels': ['cl:invalid_shape']})
+    return weighted(
+        (8, st.builds(digits, num, st.sampled_from([0, 0, 0, 1, 3]))),
+        (1, st.just({'text': '', 'expect': None, 'kind': 'empty', 'labels': ['cl:empty']})),
+        (2, invalid),
     )
 
 
 # ------------------------------------------------------------------ Range
 
 
-_units = st.one_of(st.just('bytes'), st.just('bytes'), st.sampled_from(['Bytes', 'BYTES', 'bYtEs']),
-                   st.sampled_from(['items', 'x-custom', 'pages', 'none', 'b']))
+_units = weighted((6, st.just('bytes')), (2, st.sampled_from(['Bytes', 'BYTES', 'bYtEs'])),
+                  (2, st.sampled_from(['items', 'x-custom', 'pages', 'none', 'b'])))
 _pos = st.one_of(st.integers(0, 12), st.integers(0, 1 << 33), st.integers(1 << 63, 1 << 80))
 
 
@@ -188,13 +208,13 @@ def range_values():
         st.builds(suffix, _units, st.one_of(st.integers(1, 12), st.integers(1, 1 << 70)), zeros),
     )
     spec = st.tuples(st.sampled_from(['fl', 'f', 's']), st.integers(0, 500), st.integers(0, 500))
-    return st.one_of(
-        value, value, value,
-        st.builds(multi, _units, st.lists(spec, min_size=2, max_size=4),
-                  st.lists(st.sampled_from([',', ', ', ' , ', ',\t']), min_size=1, max_size=3)),
-        st.builds(padded, value, st.lists(st.sampled_from(['', ' ', '\t', '  ']), min_size=4, max_size=4)),
-        st.builds(invalid, st.sampled_from(['last<first', 'suffix0', 'nounit', 'nospec', 'onlydash', 'junk']),
-                  _units, st.integers(0, 1000), st.integers(0, 1000)),
+    return weighted(
+        (6, value),
+        (2, st.builds(multi, _units, st.lists(spec, min_size=2, max_size=4),
+                      st.lists(st.sampled_from([',', ', ', ' , ', ',\t']), min_size=1, max_size=3))),
+        (2, st.builds(padded, value, st.lists(st.sampled_from(['', ' ', '\t', '  ']), min_size=4, max_size=4))),
+        (2, st.builds(invalid, st.sampled_from(['last<first', 'suffix0', 'nounit', 'nospec', 'onlydash', 'junk']),
+                      _units, st.integers(0, 1000), st.integers(0, 1000))),
     )
 
 
@@ -245,7 +265,19 @@ def date_values():
             exp = {'fields': [None] + list(m[1:]), 'yy': y % 100}
         return {'text': render_date(form, *m), 'expect': exp, 'form': form, 'labels': ['date:' + form]}
 
-    return st.builds(build, st.sampled_from(['imf', 'imf', 'rfc850', 'asctime']), moments())
+    edge = st.sampled_from([
+        'Sun, 06 Nov 1994 08:49:37 UTC', 'Sun, 06 Nov 1994 08:49:37 +0000', 'Sun, 06 Nov 1994 08:49:37 EST',
+        'Sun, 06 Nov 1994 08:49:37', 'Fri, 31 Dec 1999 23:59:60 GMT', 'Sat, 01 Jan 0000 00:00:00 GMT',
+        'Wed, 31 Feb 2001 00:00:00 GMT', 'Sun, 06 Nov 1994 24:00:00 GMT', 'Sun, 6 Nov 1994 08:49:37 GMT',
+        'Sun, 06-Nov-1994 08:49:37 GMT', 'Sunday, 06-Nov-94 08:49:37 UTC', 'sun, 06 nov 1994 08:49:37 gmt',
+        'Mon, 06 Nov 1994 08:49:37 GMT', '1994-11-06T08:49:37Z', '784111777', '0', '', 'Sun Nov 6 08:49:37 1994',
+        'Sun Nov  6 08:49:37 1994 GMT', 'Sun, 06 Nov 99999 08:49:37 GMT', 'Sun, 06 Nov 1994 08:49 GMT',
+        'Sunday, 06-Nov-1994 08:49:37 GMT', 'Sun, 06 Nov 94 08:49:37 GMT',
+    ]).map(lambda t: {'text': t, 'expect': None, 'form': 'edge', 'labels': ['date:edge_or_invalid']})
+    return weighted((3, st.builds(build, st.just('imf'), moments())),
+                    (2, st.builds(build, st.just('rfc850'), moments())),
+                    (2, st.builds(build, st.just('asctime'), moments())),
+                    (1, edge))
 
 
 DATE_HEADERS = ['Date', 'If-Modified-Since', 'If-Unmodified-Since', 'Last-Modified', 'X-Custom-Date']
@@ -293,7 +325,7 @@ def etag_values():
     lists = st.builds(build, st.lists(etag_members, min_size=1, max_size=5),
                       st.lists(st.sampled_from(_LIST_SEPS), min_size=1, max_size=4),
                       st.sampled_from(['', '', '', ' ', ', ']), st.sampled_from(['', '', '', ' ', ' ,']))
-    return st.one_of(lists, lists, lists, lists, lists, star, blank)
+    return weighted((12, lists), (1, star), (1, blank))
 
 
 # ------------------------------------------------------------------ cookies (RFC 6265)
@@ -471,7 +503,8 @@ def quote_string(raw, mask):
 
 
 _ext_names = st.sampled_from(['secret', 'ext', 'x-by', 'fOr2', 'hostname', 'protocol', 'forx'])
-_ext_raw = st.text(alphabet=st.sampled_from(list('ab;,="\\ \tfor=by:[]')), max_size=8)
+_ext_raw = st.one_of(st.text(alphabet=st.sampled_from(list('ab;,="\\ \tfor=by:[]')), max_size=8),
+                     st.text(alphabet=st.sampled_from(list('\\"a')), max_size=6))
 _protos = st.sampled_from(['http', 'https', 'HTTP', 'HTTPS', 'Https', 'hTTp', 'ws', 'WSS', 'a+b.c-d'])
 _masks = st.one_of(st.just([]), st.just([]), st.lists(st.booleans(), min_size=1, max_size=5))
 
@@ -492,7 +525,14 @@ def forwarded_values():
         for p in present:
             mask = draw(_masks)
             fq = draw(st.booleans())
-            if p in ('for', 'by'):
+            if p == 'by' and draw(st.integers(0, 3)) == 0:
+                # section 4 syntax only (falcon documents that node contents are not validated):
+                # any quoted-string content must come back unescaped
+                raw = draw(_ext_raw)
+                exp['dest'] = raw
+                lb.add('fwd:by_arbitrary_string')
+                name = draw(cased(p))
+            elif p in ('for', 'by'):
                 node = draw(nodes())
                 raw = node['text']
                 exp['src' if p == 'for' else 'dest'] = raw
